@@ -242,24 +242,34 @@ def check_literals(ck, exe, model, tmp, lits, validate_filter_upto):
             groups["fraction"].append(lit)
         else:
             groups["plain"].append(lit)
+    # one harness process for the batched groups; the literals for which the code model predicts a SIGFPE are run one
+    # file each, in separate processes of 1000 literals (the harness abandons - leaks - a solver object per SIGFPE)
+    jobs = []
     hf = os.path.join(tmp, "lit.h.cases")
     with open(hf, "w") as f:
         for g in ("plain", "fraction"):
             L = groups[g]
             for i in range(0, len(L), BATCH):
                 f.write("B " + " ".join(hx(x) for x in L[i:i + BATCH]) + "\n")
-        for x in groups["crash"]:
-            f.write("L " + hx(x) + "\n")
-    rc, hout, herr = vlib.sh([exe, "lit", hf, tmp], timeout=6000)
+    jobs.append(hf)
+    for k in range(0, len(groups["crash"]), 1000):
+        cf = os.path.join(tmp, "lit.h%d.cases" % k)
+        with open(cf, "w") as f:
+            for x in groups["crash"][k:k + 1000]:
+                f.write("L " + hx(x) + "\n")
+        jobs.append(cf)
     H = {}
-    for l in hout.splitlines():
-        t = l.split()
-        if t and t[0] == "L":
-            H[unhx(t[1])] = dict(x.split("=", 1) for x in t[2:])
-    if rc != 0:
-        missing = [x for x in lits if x not in H and x in M]
-        ck.violation("harness-crash:lit", "the literal harness died (rc=%d) near literal %r" % (rc, missing[:1]),
-                     {"kind": "crash", "first_unreported_literals": missing[:5], "stderr": herr[-1500:]})
+    for jf in jobs:
+        rc, hout, herr = vlib.sh([exe, "lit", jf, tmp], timeout=6000)
+        for l in hout.splitlines():
+            t = l.split()
+            if t and t[0] == "L" and len(t) == 7:
+                H[unhx(t[1])] = dict(x.split("=", 1) for x in t[2:])
+        if rc != 0:
+            asked = [unhx(w) for l in open(jf) for w in l.split()[1:]]
+            missing = [x for x in asked if x not in H]
+            ck.violation("harness-crash:lit", "the literal harness died (rc=%d) near literal %r" % (rc, missing[:1]),
+                         {"kind": "crash", "first_unreported_literals": missing[:5], "stderr": herr[-1500:]})
 
     rejected = {}
     for lit in lits:
@@ -728,15 +738,18 @@ def check_duals(ck, exe, tmp, cases):
         ps, pv = hb["P"].split()
         ds_, dv = hb["D"].split()
         ck.count("dual:primal-" + ps)
+        # buildDualProblem takes a free row for ">= -1e100": the dual variable gets the cost -1e100 instead of being
+        # fixed at zero (reported separately)
+        ftag = ":free-row" if any(r["lhs"] == "-inf" and r["rhs"] == "inf" for r in lp["rows"]) else ""
         if ps == "OPTIMAL":
             p, d = float(frac_of(pv)), float(frac_of(dv)) if ds_ == "OPTIMAL" else None
             if d is not None and c["fmt"] == "mps" and lp["sense"] == "min":
                 d = -d          # the dual of a minimisation problem is a maximisation problem, which MPS stores negated
             if ds_ != "OPTIMAL" or abs(p - d) > 1e-6 * (1 + abs(p)):
-                ck.violation("dual-value:%s" % c["fmt"], "primal optimum %r but the LP written by writeDualFileReal has status %s value %r" % (p, ds_, d),
+                ck.violation("dual-value:%s%s" % (c["fmt"], ftag), "primal optimum %r but the LP written by writeDualFileReal has status %s value %r" % (p, ds_, d),
                              dict(replay, primal=hb["P"], dual=hb["D"]))
         elif ps in ("UNBOUNDED", "INFEASIBLE") and ds_ == "OPTIMAL":
-            ck.violation("dual-status:%s" % c["fmt"], "primal %s but the dual LP has an optimum" % ps.lower(), dict(replay, primal=hb["P"], dual=hb["D"]))
+            ck.violation("dual-status:%s%s" % (c["fmt"], ftag), "primal %s but the dual LP has an optimum" % ps.lower(), dict(replay, primal=hb["P"], dual=hb["D"]))
 
 
 def rnd_bounded_lp(rng):
